@@ -233,7 +233,13 @@ def finalise(report, level, level_checker_cmd):
     # 2. undischarged obligations
     failed = [r for r in report.obligations if r['verdict'] != 'unsat']
     have_input = bool(violations)
+    # a function whose translation stopped at a construct outside the verified subset is only partly encoded: what its paths so far
+    # could not prove is not a verdict about the code (a failed proof is "undecided"); AST obligations do not depend on the translation
+    left_subset = {f['name'] for f in report.functions if f.get('error')}
     for r in failed:
+        if r['function'] in left_subset and r.get('kind') != 'syntactic':
+            undecided.append('%s: not discharged, but %s left the verified subset (partly encoded): undecided' % (r['name'], r['function']))
+            continue
         base = baseline.get(r['function'], {})
         same_code = base.get('hash') is not None and base.get('hash') == fn_hash.get(r['function'])
         was_ok = base.get('obligations', {}).get(r['name']) == 'unsat'
